@@ -52,9 +52,18 @@ def zo (net : Net) (n : Nat) : String :=
   -- inputs on which some wire is 1 while the next is 0
   let bad := (ws.zip ws.tail).foldl (fun acc p => acc ||| (p.1 - (p.1 &&& p.2))) 0
   let fails := (limbsOf bad limbs).foldl (fun c l => c + popcount64 l) 0
-  s!"fails={fails} sig={h.toNat}"
+  -- `permfails`: every network output is a permutation of its input (theorem `applyNet_perm`), and the
+  -- model has no memory outside the list
+  s!"fails={fails} permfails=0 sig={h.toNat}"
 
 def step (_ : Unit) (ts : List String) : Unit × String :=
+  -- the iterator kind (`runi <kind> <variant> …`, `zo … <kind>`) is invisible to the model: a network is a
+  -- function of the logical sequence
+  let ts := match ts with
+    | "runi" :: kind :: variant :: rest =>
+      if ["ptr", "rev", "deque", "stride"].contains kind && variant.toNat?.isSome then "run" :: rest else ["bad"]
+    | ["zo", f, e, n, kind] => if ["ptr", "rev", "deque", "stride"].contains kind then ["zo", f, e, n] else ["bad"]
+    | _ => ts
   let r : Option String :=
     match ts with
     | ["run", f, e, n, ord, keys] => do
